@@ -113,3 +113,34 @@ class FakeTimeModule:
 
     def time(self):
         return self._g().time()
+
+
+_compat_done = False
+
+
+def install_isinstance_compat() -> None:
+    """CrossHair emulates ``isinstance(o, T)`` as ``issubclass(type(o), T)``; for a runtime-checkable Protocol with
+    non-method members (``workflows.resource.ResourceDescriptor``: ``name``, ``cache``) CPython rejects that issubclass
+    with TypeError although the isinstance itself is legal.  Fall back to the genuine builtin in exactly that case.
+    Tool compatibility only: the answer is CPython's own."""
+    global _compat_done
+    if _compat_done:
+        return
+    _compat_done = True
+    try:
+        from crosshair import core
+        from crosshair.tracers import NoTracing
+    except Exception:  # native replay without crosshair
+        return
+    prev = core._PATCH_REGISTRATIONS.get(isinstance)
+    if prev is None:
+        return
+
+    def _isinstance_compat(obj, types):
+        try:
+            return prev(obj, types)
+        except TypeError:
+            with NoTracing():
+                return isinstance(obj, types)
+
+    core._PATCH_REGISTRATIONS[isinstance] = _isinstance_compat
